@@ -126,12 +126,12 @@ def expected(a, b):
         return ("prerelease_precedes", "<")
     if b["pre"] and not a["pre"]:
         return ("prerelease_precedes", ">")
-    if not a["pre"] and not b["pre"]:
+    if (a["pre"] or None) == (b["pre"] or None):      # the same release or the same pre-release, with / without +post
         if a["post"] and not b["post"]:
             return ("postrelease_follows", ">")
         if b["post"] and not a["post"]:
             return ("postrelease_follows", "<")
-        if not a["post"] and not b["post"]:
+        if (a["post"] or None) == (b["post"] or None):
             return ("numeric", "=")              # same numbers, spelt with other separators / leading zeros
     return None
 
